@@ -56,7 +56,8 @@ def generateIntrospectionXML(objectPath, exportedObjects):
     for path in exportedObjects.keys():
         if path.startswith(objectPath):
             path = path[len(objectPath):].partition('/')[0]
-            if path not in matches:
+            # (empty for the root object itself, which is not its own child)
+            if path and path not in matches:
                 matches.append(path)
 
     if obj is None and not matches:
